@@ -152,6 +152,78 @@ def unclamp(logR):
     return rec(logR), clamps
 
 
+_VIEW_FUNCS = {"np.asarray", "np.asanyarray", "numpy.asarray", "np.atleast_1d", "np.atleast_2d", "np.ravel", "np.squeeze", "np.transpose", "np.reshape", "np.diagonal", "np.broadcast_to"}
+_VIEW_METHODS = {"view", "reshape", "ravel", "squeeze", "transpose", "swapaxes", "diagonal"}
+_INPLACE_METHODS = {"sort", "fill", "resize", "put", "itemset", "partition", "append", "extend", "insert", "pop", "remove", "clear", "update", "setdefault", "popitem", "reverse"}
+
+
+def _may_alias_context(e: ast.expr, aliases: set[str]) -> bool:
+    """can the value of `e` share storage with something the context (or the criterion) holds?"""
+    if isinstance(e, ast.Name):
+        return e.id in aliases
+    if isinstance(e, ast.Attribute):
+        if e.attr in ("T", "real", "flat", "array"):
+            return _may_alias_context(e.value, aliases)
+        root = e
+        while isinstance(root, ast.Attribute):
+            root = root.value
+        return isinstance(root, ast.Name) and (root.id in ("context", "self") or root.id in aliases)
+    if isinstance(e, ast.Subscript):
+        return _may_alias_context(e.value, aliases)  # basic slicing gives a view
+    if isinstance(e, ast.Call):
+        fn = norm(e.func)
+        if fn in _VIEW_FUNCS and e.args:
+            return _may_alias_context(e.args[0], aliases)
+        if isinstance(e.func, ast.Attribute) and e.func.attr in _VIEW_METHODS:
+            return _may_alias_context(e.func.value, aliases)
+    if isinstance(e, ast.IfExp):
+        return _may_alias_context(e.body, aliases) or _may_alias_context(e.orelse, aliases)
+    return False
+
+
+def _check_read_only(L: Ledger, ci: ClassInfo, f: FuncInfo, body: list[ast.stmt]) -> None:
+    """Rule W: evaluating a criterion is an observation.  evaluate() may bind locals and keep diagnostic values on the
+    criterion, but it never writes to the context, and never changes IN PLACE an array that may share storage with a context
+    attribute (np.asarray / a slice / .T of one is the same memory): the parameter would drift from trial to trial."""
+    aliases: set[str] = set()
+    n = 0
+    for st in ast.walk(ast.Module(body=body, type_ignores=[])):
+        if isinstance(st, (ast.Assign, ast.AnnAssign)) and st.value is not None:
+            for t in (st.targets if isinstance(st, ast.Assign) else [st.target]):
+                if isinstance(t, ast.Name) and _may_alias_context(st.value, aliases) and not (isinstance(st.value, ast.Attribute) and norm(st.value).startswith("self.")):
+                    aliases.add(t.id)
+    aliases.discard("context")
+
+    def ctx_target(t) -> bool:
+        root = t
+        while isinstance(root, (ast.Attribute, ast.Subscript)):
+            root = root.value
+        if isinstance(root, ast.Name) and root.id == "context" and root is not t:
+            return True
+        if isinstance(t, ast.Subscript):
+            return _may_alias_context(t.value, aliases) and not (isinstance(root, ast.Name) and root.id == "self")
+        return isinstance(t, ast.Name) and t.id in aliases
+
+    for st in ast.walk(ast.Module(body=body, type_ignores=[])):
+        bad = None
+        if isinstance(st, ast.AugAssign) and ctx_target(st.target):
+            bad = st
+        elif isinstance(st, ast.Assign) and any(not isinstance(t, ast.Name) and ctx_target(t) for t in st.targets):
+            bad = st
+        elif isinstance(st, ast.Call) and isinstance(st.func, ast.Attribute) and st.func.attr in _INPLACE_METHODS and _may_alias_context(st.func.value, aliases) \
+                and not norm(st.func.value).startswith("self."):
+            bad = st
+        elif isinstance(st, ast.Call) and any(k.arg == "out" and _may_alias_context(k.value, aliases) for k in st.keywords):
+            bad = st
+        if bad is not None:
+            n += 1
+            L.violation("W", f"{ci.name}.evaluate:writes-context", f"{f.module.relpath}:{bad.lineno}",
+                        f"`{norm(bad)[:90]}` in {ci.name}.evaluate changes, in place, data that the context holds (or an array sharing its storage: np.asarray / a slice / .T of a context attribute is the same memory)",
+                        "the parameter read by the acceptance formula drifts from trial to trial (trial k sees k updates); the user's own array changes as well", norm(bad)[:100])
+    if n == 0:
+        L.ok("W", f"{ci.name}.evaluate:read-only", f.where)
+
+
 def analyse(prog: Program, L: Ledger, ci: ClassInfo, f: FuncInfo, deltas: list[int]) -> None:
     kind = kind_of(prog, ci, "")
     if kind is None:
@@ -167,6 +239,7 @@ def analyse(prog: Program, L: Ledger, ci: ClassInfo, f: FuncInfo, deltas: list[i
     for st in body:
         ast.fix_missing_locations(st)
     where = f.where
+    _check_read_only(L, ci, f, body)
 
     for delta in (deltas if kind == "grand" else [None]):
         table = base_vocab()
@@ -416,6 +489,7 @@ def run(prog: Program, L: Ledger) -> None:
     L.rule("O", "every math.exp argument reachable in evaluate() is bounded above by 709.78 (clamped) — arbitrarily favourable trials never raise")
     L.rule("D", "the decision is `u < A`, strict, with u the single context.rng.random() draw")
     L.rule("P", "criteria read parameters from the context at evaluation time; driver property getter/setter pairs use the same context slot; constructor parameters go through them")
+    L.rule("W", "evaluate() never writes to the context nor changes in place an array that may share storage with a context attribute")
     L.rule("N", "the particle number N read by the insertion/deletion rule is only ever advanced by the trial's particle_delta (who-may-write on number_of_exchange_particles)")
     L.assume("numpy broadcasting: matrix ± scalar is element-wise; math.exp raises OverflowError above 709.78 while np.exp saturates")
 
